@@ -1,0 +1,6 @@
+//go:build linux && !verif
+
+package ptracer
+
+// verifCancelGate is a verification hook, compiled to nothing unless the verif build tag is set
+func verifCancelGate(pgid int, phase int) {}
